@@ -1530,7 +1530,11 @@ impl VirtualFileSystem for Memfs {
     fn mkfile<T: AsRef<Path>>(&self, path: T) -> RvResult<PathBuf> {
         let mut guard = self.write_guard();
         let path = self._abs(&guard, path)?;
-        self._add(&mut guard, MemfsEntry::opts(path).file().build())
+        let path = self._add(&mut guard, MemfsEntry::opts(path).file().build())?;
+        if !guard.contains_file(&path) {
+            return Err(PathError::is_not_file(&path).into());
+        }
+        Ok(path)
     }
 
     /// Wraps `mkfile` allowing for setting the file's mode.
@@ -2051,6 +2055,9 @@ impl VirtualFileSystem for Memfs {
         // Make sure the file exists
         let path = self._abs(&guard, path)?;
         self._add(&mut guard, MemfsEntry::opts(&path).file().build())?;
+        if !guard.contains_file(&path) {
+            return Err(PathError::is_not_file(&path).into());
+        }
 
         // Create an empty file to write to
         Ok(Box::new(MemfsFile {
